@@ -26,7 +26,7 @@ from __future__ import annotations
 import ast
 
 from ..cfg import CFG, own_nodes, own_statements
-from ..model import AnalysisError
+from ..model import FunctionInfo, AnalysisError
 from ..report import Result, mk_finding
 from .common import unparse
 
@@ -159,9 +159,33 @@ def check_deleg(repo, res, fns):
             if isinstance(e, ast.Constant) and isinstance(e.value, str):
                 return [e.value]
             if isinstance(e, ast.Name):
-                if e.id in local1 and len(local1[e.id]) == 1 and isinstance(local1[e.id][0], (ast.JoinedStr, ast.Constant)):
+                if e.id in local1 and len(local1[e.id]) == 1 and isinstance(local1[e.id][0], (ast.JoinedStr, ast.Constant, ast.Call, ast.BinOp)):
                     return parts(local1[e.id][0], depth + 1)
                 return [("v", e.id)]
+            if isinstance(e, ast.Call):
+                fname = getattr(e.func, "id", getattr(e.func, "attr", None))
+                if fname == "join" and not (isinstance(e.func, ast.Attribute) and isinstance(e.func.value, ast.Constant)) and e.args:
+                    # os.path.join(a, b, ...)
+                    out = []
+                    for i, a in enumerate(e.args):
+                        out += ([] if i == 0 else ["/"]) + parts(a, depth + 1)
+                    return out
+                if fname == "str" and len(e.args) == 1:
+                    return parts(e.args[0], depth + 1)
+                if fname in ("sub", "subn", "replace", "lower", "upper", "casefold", "strip", "lstrip", "rstrip", "translate", "split", "hexdigest", "hash", "basename", "normalize", "encode", "title", "capitalize", "format_map", "slugify", "secure_filename"):
+                    return [("lossy", unparse(e, 50))]
+                if isinstance(e.func, ast.Name):
+                    tgt = repo.resolve_name(w, w.module, e.func.id)
+                    if isinstance(tgt, FunctionInfo) and tgt.module is w.module and not e.keywords and len(e.args) <= len(tgt.params):
+                        rets = [r for r in own_statements(tgt.node) if isinstance(r, ast.Return) and r.value is not None]
+                        if len(rets) == 1:
+                            from ..provenance import subst as _subst
+                            return parts(_subst(rets[0].value, dict(zip(tgt.params, e.args))), depth + 1)
+                return [("?", unparse(e))]
+            if isinstance(e, ast.Subscript) and isinstance(e.slice, ast.Slice):
+                return [("lossy", unparse(e, 50))]
+            if isinstance(e, ast.BinOp) and isinstance(e.op, ast.Add):
+                return parts(e.left, depth + 1) + parts(e.right, depth + 1)
             if isinstance(e, ast.JoinedStr):
                 out = []
                 for v in e.values:
@@ -184,7 +208,7 @@ def check_deleg(repo, res, fns):
         # the path each member is written to: second argument of the inner write call (write_json / write_hif / open)
         member_paths = []
         for c in ast.walk(w.node):
-            if isinstance(c, ast.Call) and getattr(c.func, "id", getattr(c.func, "attr", None)) in (wname,) and len(c.args) >= 2:
+            if isinstance(c, ast.Call) and getattr(c.func, "id", getattr(c.func, "attr", None)) in (wname, "write_hif" if "hif" in wname else wname) and len(c.args) >= 2:
                 a = c.args[1]
                 if isinstance(a, ast.Name) and len(local1.get(a.id, [])) > 1:
                     member_paths += local1[a.id]  # one binding per branch (list / dict collections)
@@ -205,6 +229,11 @@ def check_deleg(repo, res, fns):
                     ok = False
             else:
                 ok = False
+        lossy = [x for r_ in list(rels) + list(member_paths) for x in parts(r_) if isinstance(x, tuple) and x[0] == "lossy"]
+        res.inst("F-DELEG", f"{wname}: member file names embed the dataset name as it is (different names, different files)", not lossy)
+        if lossy:
+            res.add(mk_finding(PROP, "F-DELEG", w, w.node, f"{wname}: the file name of a member is derived from its dataset name through `{lossy[0][1]}`, which can map two different names to the same file; the later member overwrites the earlier one and both names read back as the same network", role="injective"))
+            ok = True  # reported above; the path comparison below would only repeat it
         res.inst("F-DELEG", f"{wname}: the recorded relative path is the file name each member is written to", ok)
         if not ok:
             res.add(mk_finding(PROP, "F-DELEG", w, w.node, f"{wname}: the 'relative-path' recorded for a member differs from the file name it is written to; the collection cannot be read back", role="relative-path"))
